@@ -161,7 +161,7 @@ class CountMinSketch:
         """
         offset = cls.__FOOTER_STRUCT.size
         width, depth, _ = cls.__FOOTER_STRUCT.unpack_from(bytes(b[-1 * offset :]))
-        cms = CountMinSketch(width=width, depth=depth, hash_function=hash_function)
+        cms = cls(width=width, depth=depth, hash_function=hash_function)
         cms._parse_bytes(b)
         return cms
 
